@@ -198,11 +198,13 @@ func driverEll(c *Ctx) {
 		g := c.gen(i)
 		g.MaxKids = 3
 		g.MaxVals = 3
+		g.Indexed = i%2 == 1 // names of the shape the expansion generates: "v1" next to "v1[0]"
 		es := 0
 		var t *GItem
 		for try := 0; try < 20; try++ {
 			es = 0
 			g.varSeq = 0
+			g.names = nil
 			t = g.treeEll(2+g.pick(3), &es)
 			if t.F == "L" && es > 0 {
 				break
